@@ -153,13 +153,13 @@ class OffsetVeryLow2D(Gaussian2D):
 
 
 class Rect2D(Model):
-    """Different bounds per parameter (narrow x0, wide x1) and likelihood mass at the narrow parameter's edge:
-    a flow proposes candidates beyond the bound, which the bounds check must reject.  log_prior delegates
-    the bounds test to Model.in_bounds (the documented pattern)."""
+    """Different bounds per parameter (narrow u, wide c), names NOT in alphabetical order, and likelihood
+    mass at the narrow parameter's edge: a flow proposes candidates beyond the bound, which the bounds check
+    must reject.  log_prior delegates the bounds test to Model.in_bounds (the documented pattern)."""
 
     def __init__(self):
-        self.names = ["x0", "x1"]
-        self.bounds = {"x0": [-1.0, 1.0], "x1": [-8.0, 8.0]}
+        self.names = ["u", "c"]
+        self.bounds = {"u": [-1.0, 1.0], "c": [-8.0, 8.0]}
 
     def log_prior(self, x):
         with np.errstate(divide="ignore"):
@@ -167,18 +167,18 @@ class Rect2D(Model):
         return lp - np.log(2.0 * 16.0)
 
     def log_likelihood(self, x):
-        return -0.5 * (((x["x0"] - 0.8) / 0.5) ** 2 + (x["x1"] / 2.0) ** 2)
+        return -0.5 * (((x["u"] - 0.8) / 0.5) ** 2 + (x["c"] / 2.0) ** 2)
 
     def to_unit_hypercube(self, x):
         x = x.copy()
-        x["x0"] = (x["x0"] + 1.0) / 2.0
-        x["x1"] = (x["x1"] + 8.0) / 16.0
+        x["u"] = (x["u"] + 1.0) / 2.0
+        x["c"] = (x["c"] + 8.0) / 16.0
         return x
 
     def from_unit_hypercube(self, x):
         x = x.copy()
-        x["x0"] = 2.0 * x["x0"] - 1.0
-        x["x1"] = 16.0 * x["x1"] - 8.0
+        x["u"] = 2.0 * x["u"] - 1.0
+        x["c"] = 16.0 * x["c"] - 8.0
         return x
 
 
